@@ -143,6 +143,14 @@ def _gen_inflate(rng, fi, data, lay):
     'count honoured before the data is there' probe. Positions: a field's length varint, the leading count of a field
     (string pool, id map, locations - documented as 'count, then that many entries'), a zone's period count."""
     c = rng.random()
+    if c < 0.2 and lay["pool_spans"]:
+        # the length prefix of a string in the string pool (strings there are stored inline: length, then bytes)
+        off, reg = rng.choice(lay["pool_spans"])[0], "inflate-pool-strlen"
+        j = rng.choice([3, 4, 4, 4])
+        plan = [["sub", off + i, 0xFF] for i in range(j) if off + i < len(data) and data[off + i] != 0xFF]
+        if j == 3 and off + 3 < len(data):
+            plan.append(["sub", off + 3, rng.choice([0x7F, 0x07, 0x01])])
+        return (plan or [["sub", off, 0xFE]]), [reg] * max(1, len(plan))
     if c < 0.3:
         f = rng.choice(lay["fields"])
         off, reg = f["len_start"], "inflate-field-length"
